@@ -1131,4 +1131,765 @@ theorem product_length {β : Type} (gs : List (List β)) :
     | cons a g ihg => simp [ihg, Nat.add_mul]; omega
 
 
+/-! ## ModelFeatures.__add__ / __sub__ on atoms -/
+
+/-! ### atoms, by category -/
+
+theorem mem_atoms_abs (a : MF) (m : String) : Atom.abs m ∈ a.atoms ↔ m ∈ optExpand Gen.absorptionWildcard a.absorption := by
+  simp [MF.atoms, Transits.atoms, Peripherals.atoms]
+
+theorem mem_atoms_elim (a : MF) (m : String) : Atom.elim m ∈ a.atoms ↔ m ∈ optExpand Gen.eliminationWildcard a.elimination := by
+  simp [MF.atoms, Transits.atoms, Peripherals.atoms]
+
+theorem mem_atoms_lag (a : MF) (m : String) : Atom.lag m ∈ a.atoms ↔ m ∈ optExpand Gen.lagtimeWildcard a.lagtime := by
+  simp [MF.atoms, Transits.atoms, Peripherals.atoms]
+
+theorem mem_atoms_trans (a : MF) (c : Nat) (d : String) :
+    Atom.trans c d ∈ a.atoms ↔ ∃ t, t ∈ a.transits ∧ c ∈ t.counts ∧ d ∈ t.depot.expand Gen.transitsDepotWildcard := by
+  simp [MF.atoms, Transits.atoms, Peripherals.atoms]
+
+theorem mem_atoms_peri (a : MF) (c : Nat) (m : String) :
+    Atom.peri c m ∈ a.atoms ↔ ∃ p, p ∈ a.peripherals ∧ c ∈ p.counts ∧ m ∈ p.modes.expand Gen.peripheralsModesWildcard := by
+  simp [MF.atoms, Transits.atoms, Peripherals.atoms]
+
+/-! ### sorted sets of ints -/
+
+theorem mem_insertSorted (n x : Nat) (l : List Nat) : x ∈ insertSorted n l ↔ x = n ∨ x ∈ l := by
+  induction l with
+  | nil => simp [insertSorted]
+  | cons m ms ih =>
+    simp only [insertSorted]
+    split
+    · simp
+    · split
+      · rename_i h; simp at h; subst h; simp
+      · simp [ih]; constructor
+        · rintro (h | h | h); exact Or.inr (Or.inl h); exact Or.inl h; exact Or.inr (Or.inr h)
+        · rintro (h | h | h); exact Or.inr (Or.inl h); exact Or.inl h; exact Or.inr (Or.inr h)
+
+theorem mem_sortDedup (x : Nat) (l : List Nat) : x ∈ sortDedup l ↔ x ∈ l := by
+  induction l with
+  | nil => simp [sortDedup]
+  | cons a l ih =>
+    have : sortDedup (a :: l) = insertSorted a (sortDedup l) := rfl
+    rw [this, mem_insertSorted, ih]; simp
+
+/-! ### the insertion-ordered dict of `_add_helper` -/
+
+def dictKeys (d : List (String × List Nat)) : List String := d.map (·.1)
+
+theorem dictGet_extend (a : String) (vs : List Nat) (d : List (String × List Nat)) (b : String) :
+    dictGet (dictExtend a vs d) b = if b = a then dictGet d a ++ vs else dictGet d b := by
+  induction d with
+  | nil =>
+    by_cases h : b = a
+    · subst h; simp [dictExtend, dictGet]
+    · have : ¬ a = b := fun e => h e.symm
+      simp [dictExtend, dictGet, h, this]
+  | cons kv rest ih =>
+    obtain ⟨k, w⟩ := kv
+    simp only [dictExtend]
+    by_cases hk : k = a
+    · subst hk
+      by_cases h : b = k
+      · subst h; simp [dictGet]
+      · have : ¬ k = b := fun e => h e.symm
+        simp [dictGet, h, this]
+    · have hk' : (k == a) = false := by simpa using hk
+      simp only [hk', Bool.false_eq_true, if_false]
+      by_cases hb : k = b
+      · subst hb
+        have : ¬ k = a := hk
+        simp [dictGet, this]
+      · have hbk : (k == b) = false := by simpa using hb
+        have e1 : dictGet ((k, w) :: dictExtend a vs rest) b = dictGet (dictExtend a vs rest) b := by
+          simp [dictGet, List.find?, hbk]
+        have e2 : dictGet ((k, w) :: rest) b = dictGet rest b := by
+          simp [dictGet, List.find?, hbk]
+        have e3 : dictGet ((k, w) :: rest) a = dictGet rest a := by
+          simp [dictGet, List.find?, hk']
+        rw [e1, e2, e3, ih]
+
+theorem dictKeys_extend (a : String) (vs : List Nat) (d : List (String × List Nat)) :
+    (dictKeys d).Nodup → (dictKeys (dictExtend a vs d)).Nodup ∧
+      ∀ k, k ∈ dictKeys (dictExtend a vs d) ↔ k = a ∨ k ∈ dictKeys d := by
+  induction d with
+  | nil => intro _; simp [dictExtend, dictKeys]
+  | cons kv rest ih =>
+    obtain ⟨k, w⟩ := kv
+    intro hnd
+    have hnd' : (dictKeys rest).Nodup := (List.nodup_cons.mp hnd).2
+    have hk : k ∉ dictKeys rest := (List.nodup_cons.mp hnd).1
+    simp only [dictExtend]
+    by_cases hka : k = a
+    · subst hka
+      simp only [beq_self_eq_true, if_true]
+      refine ⟨hnd, ?_⟩
+      intro k'; simp [dictKeys]
+    · have hk' : (k == a) = false := by simpa using hka
+      simp only [hk', Bool.false_eq_true, if_false]
+      obtain ⟨h1, h2⟩ := ih hnd'
+      refine ⟨?_, ?_⟩
+      · show (k :: dictKeys (dictExtend a vs rest)).Nodup
+        refine List.nodup_cons.mpr ⟨?_, h1⟩
+        intro hm
+        rcases (h2 k).mp hm with h | h
+        · exact hka h
+        · exact hk h
+      · intro k'
+        show k' ∈ k :: dictKeys (dictExtend a vs rest) ↔ _
+        simp only [List.mem_cons, h2]
+        show _ ↔ k' = a ∨ k' ∈ k :: dictKeys rest
+        simp only [List.mem_cons]
+        constructor
+        · rintro (h | h | h); exact Or.inr (Or.inl h); exact Or.inl h; exact Or.inr (Or.inr h)
+        · rintro (h | h | h); exact Or.inr (Or.inl h); exact Or.inl h; exact Or.inr (Or.inr h)
+
+/-- in a dict with distinct keys every entry is what `dictGet` returns for its key -/
+theorem dictGet_of_mem (d : List (String × List Nat)) (hnd : (dictKeys d).Nodup) (kv : String × List Nat)
+    (h : kv ∈ d) : dictGet d kv.1 = kv.2 := by
+  induction d with
+  | nil => cases h
+  | cons e rest ih =>
+    obtain ⟨k, w⟩ := e
+    rcases List.mem_cons.mp h with rfl | h'
+    · simp [dictGet]
+    · have hk : k ∉ dictKeys rest := (List.nodup_cons.mp hnd).1
+      have hne : ¬ k = kv.1 := by
+        rintro rfl; exact hk (List.mem_map.mpr ⟨kv, h', rfl⟩)
+      have hb : (k == kv.1) = false := by simpa using hne
+      have : dictGet ((k, w) :: rest) kv.1 = dictGet rest kv.1 := by simp [dictGet, List.find?, hb]
+      rw [this]; exact ih (List.nodup_cons.mp hnd).2 h'
+
+theorem dictGet_nil_of_not_key (d : List (String × List Nat)) (k : String) (h : k ∉ dictKeys d) : dictGet d k = [] := by
+  induction d with
+  | nil => rfl
+  | cons e rest ih =>
+    obtain ⟨k', w⟩ := e
+    have hne : ¬ k' = k := by rintro rfl; exact h (by simp [dictKeys])
+    have hb : (k' == k) = false := by simpa using hne
+    have : dictGet ((k', w) :: rest) k = dictGet rest k := by simp [dictGet, List.find?, hb]
+    rw [this]; exact ih (fun hm => h (by simp [dictKeys] at hm ⊢; exact Or.inr hm))
+
+
+theorem evalDepot_ok (t : Transits) (ds : List String) (h : t.evalDepot = .ok ds) :
+    ds = t.depot.expand Gen.transitsDepotWildcard := by
+  unfold Transits.evalDepot at h
+  cases hd : t.depot with
+  | wild => rw [hd] at h; cases h; rfl
+  | names l => rw [hd] at h; cases h; rfl
+  | bare s => rw [hd] at h; cases h
+
+theorem foldExtend_spec (ds : List String) (cs : List Nat) (D : List (String × List Nat)) (hnd : (dictKeys D).Nodup) :
+    (dictKeys (ds.foldl (fun d a => dictExtend a cs d) D)).Nodup ∧
+      ∀ b c, c ∈ dictGet (ds.foldl (fun d a => dictExtend a cs d) D) b ↔ c ∈ dictGet D b ∨ (b ∈ ds ∧ c ∈ cs) := by
+  induction ds generalizing D with
+  | nil => exact ⟨hnd, by simp⟩
+  | cons a ds ih =>
+    simp only [List.foldl_cons]
+    obtain ⟨h1, h2⟩ := ih (dictExtend a cs D) (dictKeys_extend a cs D hnd).1
+    refine ⟨h1, ?_⟩
+    intro b c
+    rw [h2, dictGet_extend]
+    by_cases hb : b = a
+    · subst hb; simp only [if_true, List.mem_append, List.mem_cons, true_or, true_and]
+      constructor
+      · rintro ((h | h) | ⟨_, h⟩); exact Or.inl h; exact Or.inr h; exact Or.inr h
+      · rintro (h | h); exact Or.inl (Or.inl h); exact Or.inl (Or.inr h)
+    · simp only [hb, if_false, List.mem_cons, false_or]
+
+def joinStep (d : List (String × List Nat)) (t : Transits) : Except Err (List (String × List Nat)) := do
+  let ds ← t.evalDepot
+  pure (ds.foldl (fun d a => dictExtend a t.counts d) d)
+
+theorem joinDict_eq (ts : List Transits) : joinDict ts = ts.foldlM joinStep [] := rfl
+
+theorem joinFold_spec (ts : List Transits) (D0 D : List (String × List Nat)) (hnd : (dictKeys D0).Nodup)
+    (h : ts.foldlM joinStep D0 = .ok D) :
+    (dictKeys D).Nodup ∧
+      ∀ b c, c ∈ dictGet D b ↔ c ∈ dictGet D0 b ∨ ∃ t, t ∈ ts ∧ c ∈ t.counts ∧ b ∈ t.depot.expand Gen.transitsDepotWildcard := by
+  induction ts generalizing D0 with
+  | nil =>
+    simp only [List.foldlM_nil, pure, Except.pure] at h
+    cases h
+    exact ⟨hnd, by simp⟩
+  | cons t ts ih =>
+    simp only [List.foldlM_cons, bind, Except.bind] at h
+    cases hs : joinStep D0 t with
+    | error e => rw [hs] at h; cases h
+    | ok D1 =>
+      rw [hs] at h
+      simp only at h
+      unfold joinStep at hs
+      cases hd : t.evalDepot with
+      | error e => rw [hd] at hs; cases hs
+      | ok ds =>
+        rw [hd] at hs
+        simp only [bind, Except.bind, pure, Except.pure] at hs
+        cases hs
+        have hds := evalDepot_ok t ds hd
+        obtain ⟨f1, f2⟩ := foldExtend_spec ds t.counts D0 hnd
+        obtain ⟨g1, g2⟩ := ih _ f1 h
+        refine ⟨g1, ?_⟩
+        intro b c
+        rw [g2, f2, hds]
+        constructor
+        · rintro ((h | ⟨h1, h2⟩) | ⟨t', ht', h'⟩)
+          · exact Or.inl h
+          · exact Or.inr ⟨t, List.mem_cons_self, h2, h1⟩
+          · exact Or.inr ⟨t', List.mem_cons_of_mem _ ht', h'⟩
+        · rintro (h | ⟨t', ht', h1, h2⟩)
+          · exact Or.inl (Or.inl h)
+          · rcases List.mem_cons.mp ht' with rfl | ht''
+            · exact Or.inl (Or.inr ⟨h2, h1⟩)
+            · exact Or.inr ⟨t', ht'', h1, h2⟩
+
+theorem joinDict_spec (ts : List Transits) (D : List (String × List Nat)) (h : joinDict ts = .ok D) :
+    (dictKeys D).Nodup ∧
+      ∀ b c, c ∈ dictGet D b ↔ ∃ t, t ∈ ts ∧ c ∈ t.counts ∧ b ∈ t.depot.expand Gen.transitsDepotWildcard := by
+  rw [joinDict_eq] at h
+  obtain ⟨h1, h2⟩ := joinFold_spec ts [] D (by simp [dictKeys]) h
+  refine ⟨h1, ?_⟩
+  intro b c
+  rw [h2]
+  simp [dictGet]
+
+theorem mem_dictGet_entry (d : List (String × List Nat)) (k : String) (c : Nat) (h : c ∈ dictGet d k) :
+    ∃ kv, kv ∈ d ∧ kv.1 = k ∧ kv.2 = dictGet d k := by
+  unfold dictGet at h ⊢
+  cases hf : d.find? (fun kv => kv.1 == k) with
+  | none => rw [hf] at h; cases h
+  | some kv =>
+    refine ⟨kv, List.mem_of_find?_eq_some hf, ?_, rfl⟩
+    have := List.find?_some hf
+    simpa using this
+
+/-- atoms of `Transits(v, (k,))` for the entries of a filtered dict -/
+theorem filteredDict_atoms (d : List (String × List Nat)) (hnd : (dictKeys d).Nodup) (f : String → Nat → Bool)
+    (k : String) (c : Nat) :
+    Atom.trans c k ∈ (toTransits ((d.map (fun kv => (kv.1, (sortDedup kv.2).filter (f kv.1)))).filter
+        (fun kv => !kv.2.isEmpty))).flatMap Transits.atoms ↔
+      c ∈ dictGet d k ∧ f k c = true := by
+  simp only [toTransits, List.mem_flatMap, List.mem_map, List.mem_filter, Transits.atoms, Modes.expand]
+  constructor
+  · rintro ⟨t, ⟨kv', ⟨⟨kv, hkv, rfl⟩, _⟩, rfl⟩, c', hc', hm⟩
+    simp only [List.mem_singleton] at hm
+    obtain ⟨d', rfl, he⟩ := hm
+    cases he
+    simp only [List.mem_filter, mem_sortDedup] at hc'
+    rw [dictGet_of_mem d hnd kv hkv]
+    exact hc'
+  · rintro ⟨hc, hf⟩
+    obtain ⟨kv, hkv, hk, hv⟩ := mem_dictGet_entry d k c hc
+    subst hk
+    have hcm : c ∈ (sortDedup kv.2).filter (f kv.1) := by
+      simp only [List.mem_filter, mem_sortDedup]; rw [hv]; exact ⟨hc, hf⟩
+    refine ⟨⟨(sortDedup kv.2).filter (f kv.1), .names [kv.1]⟩, ⟨(kv.1, (sortDedup kv.2).filter (f kv.1)), ⟨⟨kv, hkv, rfl⟩, ?_⟩, rfl⟩, c, hcm, ?_⟩
+    · cases hl : (sortDedup kv.2).filter (f kv.1) with
+      | nil => rw [hl] at hcm; cases hcm
+      | cons _ _ => rfl
+    · simp
+
+theorem toTransits_atoms_only_trans (E : List (String × List Nat)) (x : Atom) (h : x ∈ (toTransits E).flatMap Transits.atoms) :
+    ∃ c k, x = Atom.trans c k := by
+  simp only [List.mem_flatMap, Transits.atoms, List.mem_map] at h
+  obtain ⟨_, _, c, _, k, _, rfl⟩ := h
+  exact ⟨c, k, rfl⟩
+
+/-- `_add_sub_transits(add=True)`: the (count, depot) atoms of the result are the union -/
+theorem addSubTransits_add (a b : MF) (ts : List Transits) (h : addSubTransits a b true = .ok ts) (c : Nat) (k : String) :
+    Atom.trans c k ∈ ts.flatMap Transits.atoms ↔
+      (∃ t, t ∈ a.transits ∧ c ∈ t.counts ∧ k ∈ t.depot.expand Gen.transitsDepotWildcard) ∨
+      (∃ t, t ∈ b.transits ∧ c ∈ t.counts ∧ k ∈ t.depot.expand Gen.transitsDepotWildcard) := by
+  unfold addSubTransits addHelper at h
+  cases h1 : joinDict a.transits with
+  | error e => simp [h1, bind, Except.bind] at h
+  | ok d1 =>
+    cases h2 : joinDict b.transits with
+    | error e => simp [h1, h2, bind, Except.bind] at h
+    | ok d2 =>
+      simp only [h1, h2, bind, Except.bind, pure, Except.pure, if_true] at h
+      cases h
+      obtain ⟨n1, s1⟩ := joinDict_spec _ _ h1
+      obtain ⟨n2, s2⟩ := joinDict_spec _ _ h2
+      simp only [List.flatMap_append, List.mem_append]
+      rw [filteredDict_atoms d1 n1 (fun k c => !(dictGet d2 k).contains c),
+          filteredDict_atoms d2 n2 (fun k c => !(dictGet d1 k).contains c),
+          filteredDict_atoms d1 n1 (fun k c => (dictGet d2 k).contains c)]
+      rw [← s1, ← s2]
+      simp only [Bool.not_eq_true', List.contains_iff_mem]
+      by_cases m1 : c ∈ dictGet d1 k <;> by_cases m2 : c ∈ dictGet d2 k <;> simp [m1, m2]
+
+
+/-- `_add_sub_transits(add=False)`: the atoms of the result are the difference -/
+theorem addSubTransits_sub (a b : MF) (ts : List Transits) (h : addSubTransits a b false = .ok ts) (c : Nat) (k : String) :
+    Atom.trans c k ∈ ts.flatMap Transits.atoms ↔
+      (∃ t, t ∈ a.transits ∧ c ∈ t.counts ∧ k ∈ t.depot.expand Gen.transitsDepotWildcard) ∧
+      ¬ (∃ t, t ∈ b.transits ∧ c ∈ t.counts ∧ k ∈ t.depot.expand Gen.transitsDepotWildcard) := by
+  unfold addSubTransits addHelper at h
+  cases h1 : joinDict a.transits with
+  | error e => simp [h1, bind, Except.bind] at h
+  | ok d1 =>
+    cases h2 : joinDict b.transits with
+    | error e => simp [h1, h2, bind, Except.bind] at h
+    | ok d2 =>
+      simp only [h1, h2, bind, Except.bind, pure, Except.pure, Bool.false_eq_true, if_false] at h
+      cases h
+      obtain ⟨n1, s1⟩ := joinDict_spec _ _ h1
+      obtain ⟨n2, s2⟩ := joinDict_spec _ _ h2
+      rw [filteredDict_atoms d1 n1 (fun k c => !(dictGet d2 k).contains c)]
+      rw [← s1, ← s2]
+      simp only [Bool.not_eq_true']
+      by_cases m2 : c ∈ dictGet d2 k <;> simp [m2]
+
+/-! ### peripherals -/
+
+def periInner (counts : List Nat) (acc : List Nat × List Nat) (m : String) : Except Err (List Nat × List Nat) :=
+  if m == "MET" then pure (sortDedup (acc.1 ++ counts), acc.2)
+  else if m == "DRUG" then pure (acc.1, sortDedup (acc.2 ++ counts))
+  else .error .keyError
+
+def periOuter (acc : List Nat × List Nat) (p : Peripherals) : Except Err (List Nat × List Nat) := do
+  let ms ← p.modes.iter
+  ms.foldlM (periInner p.counts) acc
+
+theorem extractPeripherals_eq (ps : List Peripherals) : extractPeripherals ps = ps.foldlM periOuter ([], []) := rfl
+
+theorem periInner_spec (counts : List Nat) (ms : List String) (acc acc' : List Nat × List Nat)
+    (h : ms.foldlM (periInner counts) acc = .ok acc') :
+    (∀ m, m ∈ ms → m = "MET" ∨ m = "DRUG") ∧
+    (∀ c, c ∈ acc'.1 ↔ c ∈ acc.1 ∨ ("MET" ∈ ms ∧ c ∈ counts)) ∧
+    (∀ c, c ∈ acc'.2 ↔ c ∈ acc.2 ∨ ("DRUG" ∈ ms ∧ c ∈ counts)) := by
+  induction ms generalizing acc with
+  | nil =>
+    simp only [List.foldlM_nil, pure, Except.pure] at h
+    cases h
+    simp
+  | cons m ms ih =>
+    simp only [List.foldlM_cons, bind, Except.bind] at h
+    by_cases hm : m = "MET"
+    · subst hm
+      simp only [periInner, beq_self_eq_true, if_true, pure, Except.pure] at h
+      obtain ⟨i1, i2, i3⟩ := ih _ h
+      refine ⟨?_, ?_, ?_⟩
+      · intro m hm; rcases List.mem_cons.mp hm with rfl | hm; exact Or.inl rfl; exact i1 m hm
+      · intro c; rw [i2]; simp only [mem_sortDedup, List.mem_append, List.mem_cons, true_or, true_and]
+        constructor
+        · rintro ((h | h) | ⟨_, h⟩); exact Or.inl h; exact Or.inr h; exact Or.inr h
+        · rintro (h | h); exact Or.inl (Or.inl h); exact Or.inl (Or.inr h)
+      · intro c; rw [i3]
+        have : ("DRUG" : String) ≠ "MET" := by decide
+        simp [this]
+    · by_cases hd : m = "DRUG"
+      · subst hd
+        have hne : (("DRUG" : String) == "MET") = false := by decide
+        simp only [periInner, hne, Bool.false_eq_true, if_false, beq_self_eq_true, if_true, pure, Except.pure] at h
+        obtain ⟨i1, i2, i3⟩ := ih _ h
+        refine ⟨?_, ?_, ?_⟩
+        · intro m hm; rcases List.mem_cons.mp hm with rfl | hm; exact Or.inr rfl; exact i1 m hm
+        · intro c; rw [i2]
+          have : ("MET" : String) ≠ "DRUG" := by decide
+          simp [this]
+        · intro c; rw [i3]; simp only [mem_sortDedup, List.mem_append, List.mem_cons, true_or, true_and]
+          constructor
+          · rintro ((h | h) | ⟨_, h⟩); exact Or.inl h; exact Or.inr h; exact Or.inr h
+          · rintro (h | h); exact Or.inl (Or.inl h); exact Or.inl (Or.inr h)
+      · have h1 : (m == "MET") = false := by simpa using hm
+        have h2 : (m == "DRUG") = false := by simpa using hd
+        simp [periInner, h1, h2] at h
+
+theorem periOuter_spec (ps : List Peripherals) (acc acc' : List Nat × List Nat)
+    (h : ps.foldlM periOuter acc = .ok acc') :
+    (∀ p, p ∈ ps → ∃ l, p.modes = .names l ∧ ∀ m, m ∈ l → m = "MET" ∨ m = "DRUG") ∧
+    (∀ c, c ∈ acc'.1 ↔ c ∈ acc.1 ∨ ∃ p, p ∈ ps ∧ c ∈ p.counts ∧ "MET" ∈ p.modes.expand Gen.peripheralsModesWildcard) ∧
+    (∀ c, c ∈ acc'.2 ↔ c ∈ acc.2 ∨ ∃ p, p ∈ ps ∧ c ∈ p.counts ∧ "DRUG" ∈ p.modes.expand Gen.peripheralsModesWildcard) := by
+  induction ps generalizing acc with
+  | nil =>
+    simp only [List.foldlM_nil, pure, Except.pure] at h
+    cases h
+    simp
+  | cons p ps ih =>
+    simp only [List.foldlM_cons, bind, Except.bind] at h
+    cases hs : periOuter acc p with
+    | error e => rw [hs] at h; cases h
+    | ok acc1 =>
+      rw [hs] at h
+      simp only at h
+      unfold periOuter at hs
+      cases hm : p.modes with
+      | wild => simp [hm, Modes.iter, bind, Except.bind] at hs
+      | bare s => simp [hm, Modes.iter, bind, Except.bind] at hs
+      | names l =>
+        simp only [hm, Modes.iter, bind, Except.bind] at hs
+        obtain ⟨j1, j2, j3⟩ := periInner_spec p.counts l acc acc1 hs
+        obtain ⟨i1, i2, i3⟩ := ih _ h
+        refine ⟨?_, ?_, ?_⟩
+        · intro q hq
+          rcases List.mem_cons.mp hq with rfl | hq
+          · exact ⟨l, hm, j1⟩
+          · exact i1 q hq
+        · intro c; rw [i2, j2]
+          constructor
+          · rintro ((h | ⟨h1, h2⟩) | ⟨q, hq, h'⟩)
+            · exact Or.inl h
+            · exact Or.inr ⟨p, List.mem_cons_self, h2, by rw [hm]; exact h1⟩
+            · exact Or.inr ⟨q, List.mem_cons_of_mem _ hq, h'⟩
+          · rintro (h | ⟨q, hq, h1, h2⟩)
+            · exact Or.inl (Or.inl h)
+            · rcases List.mem_cons.mp hq with rfl | hq'
+              · rw [hm] at h2; exact Or.inl (Or.inr ⟨h2, h1⟩)
+              · exact Or.inr ⟨q, hq', h1, h2⟩
+        · intro c; rw [i3, j3]
+          constructor
+          · rintro ((h | ⟨h1, h2⟩) | ⟨q, hq, h'⟩)
+            · exact Or.inl h
+            · exact Or.inr ⟨p, List.mem_cons_self, h2, by rw [hm]; exact h1⟩
+            · exact Or.inr ⟨q, List.mem_cons_of_mem _ hq, h'⟩
+          · rintro (h | ⟨q, hq, h1, h2⟩)
+            · exact Or.inl (Or.inl h)
+            · rcases List.mem_cons.mp hq with rfl | hq'
+              · rw [hm] at h2; exact Or.inl (Or.inr ⟨h2, h1⟩)
+              · exact Or.inr ⟨q, hq', h1, h2⟩
+
+theorem extractPeripherals_spec (ps : List Peripherals) (r : List Nat × List Nat) (h : extractPeripherals ps = .ok r) :
+    (∀ p, p ∈ ps → ∃ l, p.modes = .names l ∧ ∀ m, m ∈ l → m = "MET" ∨ m = "DRUG") ∧
+    (∀ c, c ∈ r.1 ↔ ∃ p, p ∈ ps ∧ c ∈ p.counts ∧ "MET" ∈ p.modes.expand Gen.peripheralsModesWildcard) ∧
+    (∀ c, c ∈ r.2 ↔ ∃ p, p ∈ ps ∧ c ∈ p.counts ∧ "DRUG" ∈ p.modes.expand Gen.peripheralsModesWildcard) := by
+  rw [extractPeripherals_eq] at h
+  obtain ⟨h1, h2, h3⟩ := periOuter_spec ps _ _ h
+  exact ⟨h1, by simpa using h2, by simpa using h3⟩
+
+theorem single_peri_atoms (cs : List Nat) (md : String) (c : Nat) (m : String) :
+    Atom.peri c m ∈ Peripherals.atoms ⟨cs, .names [md]⟩ ↔ (m = md ∧ c ∈ cs) := by
+  simp only [Peripherals.atoms, Modes.expand, List.mem_flatMap, List.mem_map, List.mem_singleton]
+  constructor
+  · rintro ⟨a, ha, _, rfl, he⟩
+    cases he; exact ⟨rfl, ha⟩
+  · rintro ⟨rfl, hc⟩
+    exact ⟨c, hc, m, rfl, rfl⟩
+
+/-- atoms of the (at most two) statements `_add_sub_peripherals` builds -/
+theorem builtPeripherals_atoms (met drug : List Nat) (c : Nat) (m : String) :
+    Atom.peri c m ∈ ((if met.isEmpty then [] else [(⟨met, .names ["MET"]⟩ : Peripherals)]) ++
+        (if drug.isEmpty then [] else [(⟨drug, .names ["DRUG"]⟩ : Peripherals)])).flatMap Peripherals.atoms ↔
+      (m = "MET" ∧ c ∈ met) ∨ (m = "DRUG" ∧ c ∈ drug) := by
+  simp only [List.flatMap_append, List.mem_append]
+  have e : ∀ (cs : List Nat) (md : String),
+      Atom.peri c m ∈ (if cs.isEmpty then [] else [(⟨cs, .names [md]⟩ : Peripherals)]).flatMap Peripherals.atoms ↔ (m = md ∧ c ∈ cs) := by
+    intro cs md
+    cases cs with
+    | nil => simp
+    | cons x xs =>
+      have : ((x :: xs).isEmpty) = false := rfl
+      simp only [this, Bool.false_eq_true, if_false, List.flatMap_cons, List.flatMap_nil, List.append_nil]
+      exact single_peri_atoms (x :: xs) md c m
+  rw [e met "MET", e drug "DRUG"]
+
+theorem peri_exists_iff (ps : List Peripherals)
+    (hv : ∀ p, p ∈ ps → ∃ l, p.modes = .names l ∧ ∀ m, m ∈ l → m = "MET" ∨ m = "DRUG") (c : Nat) (m : String) :
+    (∃ p, p ∈ ps ∧ c ∈ p.counts ∧ m ∈ p.modes.expand Gen.peripheralsModesWildcard) ↔
+      (m = "MET" ∧ ∃ p, p ∈ ps ∧ c ∈ p.counts ∧ "MET" ∈ p.modes.expand Gen.peripheralsModesWildcard) ∨
+      (m = "DRUG" ∧ ∃ p, p ∈ ps ∧ c ∈ p.counts ∧ "DRUG" ∈ p.modes.expand Gen.peripheralsModesWildcard) := by
+  constructor
+  · rintro ⟨p, hp, hc, hm⟩
+    obtain ⟨l, hl, hall⟩ := hv p hp
+    have hml : m ∈ l := by rw [hl] at hm; exact hm
+    rcases hall m hml with rfl | rfl
+    · exact Or.inl ⟨rfl, p, hp, hc, hm⟩
+    · exact Or.inr ⟨rfl, p, hp, hc, hm⟩
+  · rintro (⟨hm, h⟩ | ⟨hm, h⟩)
+    · rw [hm]; exact h
+    · rw [hm]; exact h
+
+/-- `_add_sub_peripherals(add=True)`: atoms of the result are the union -/
+theorem addSubPeripherals_add (a b : MF) (ps : List Peripherals) (h : addSubPeripherals a b true = .ok ps) (c : Nat) (m : String) :
+    Atom.peri c m ∈ ps.flatMap Peripherals.atoms ↔
+      (∃ p, p ∈ a.peripherals ∧ c ∈ p.counts ∧ m ∈ p.modes.expand Gen.peripheralsModesWildcard) ∨
+      (∃ p, p ∈ b.peripherals ∧ c ∈ p.counts ∧ m ∈ p.modes.expand Gen.peripheralsModesWildcard) := by
+  unfold addSubPeripherals at h
+  cases h1 : extractPeripherals a.peripherals with
+  | error e => simp [h1, bind, Except.bind] at h
+  | ok r1 =>
+    cases h2 : extractPeripherals b.peripherals with
+    | error e => simp [h1, h2, bind, Except.bind] at h
+    | ok r2 =>
+      obtain ⟨lm, ld⟩ := r1
+      obtain ⟨rm, rd⟩ := r2
+      simp only [h1, h2, bind, Except.bind, pure, Except.pure, if_true] at h
+      cases h
+      obtain ⟨v1, m1, d1⟩ := extractPeripherals_spec _ _ h1
+      obtain ⟨v2, m2, d2⟩ := extractPeripherals_spec _ _ h2
+      rw [builtPeripherals_atoms, peri_exists_iff _ v1, peri_exists_iff _ v2]
+      simp only [mem_sortDedup, List.mem_append]
+      simp only at m1 d1 m2 d2
+      rw [← m1, ← d1, ← m2, ← d2]
+      constructor
+      · rintro (⟨h, h' | h'⟩ | ⟨h, h' | h'⟩)
+        · exact Or.inl (Or.inl ⟨h, h'⟩)
+        · exact Or.inr (Or.inl ⟨h, h'⟩)
+        · exact Or.inl (Or.inr ⟨h, h'⟩)
+        · exact Or.inr (Or.inr ⟨h, h'⟩)
+      · rintro ((⟨h, h'⟩ | ⟨h, h'⟩) | (⟨h, h'⟩ | ⟨h, h'⟩))
+        · exact Or.inl ⟨h, Or.inl h'⟩
+        · exact Or.inr ⟨h, Or.inl h'⟩
+        · exact Or.inl ⟨h, Or.inr h'⟩
+        · exact Or.inr ⟨h, Or.inr h'⟩
+
+theorem truthy_false (k : ModeKind) (m : Option Modes) (h : truthy k m = .ok false) : optExpand k.wildcard m = [] := by
+  cases m with
+  | none => rfl
+  | some m' =>
+    cases m' with
+    | wild => simpa [truthy, Modes.len, Modes.eval, bind, Except.bind, pure, Except.pure, optExpand, Modes.expand] using h
+    | names l => simpa [truthy, Modes.len, Modes.eval, bind, Except.bind, pure, Except.pure, optExpand, Modes.expand] using h
+    | bare s => simp [truthy, Modes.len, Modes.eval, bind, Except.bind] at h
+
+theorem truthy_true (k : ModeKind) (m : Option Modes) (h : truthy k m = .ok true) :
+    ∃ m', m = some m' ∧ (m' = .wild ∨ ∃ l, m' = .names l) := by
+  cases m with
+  | none => simp [truthy] at h
+  | some m' =>
+    cases m' with
+    | wild => exact ⟨_, rfl, Or.inl rfl⟩
+    | names l => exact ⟨_, rfl, Or.inr ⟨l, rfl⟩⟩
+    | bare s => simp [truthy, Modes.len, Modes.eval, bind, Except.bind] at h
+
+theorem valid_expand_subset (wc : List String) (m : Modes) (hv : m.valid wc = true) (hm : m = .wild ∨ ∃ l, m = .names l) :
+    ∀ x, x ∈ m.expand wc → x ∈ wc := by
+  intro x hx
+  rcases hm with rfl | ⟨l, rfl⟩
+  · exact hx
+  · simp only [Modes.valid, List.all_eq_true, List.contains_iff_mem] at hv
+    exact hv x hx
+
+theorem optAdd_expand (k : ModeKind) (l r res : Option Modes) (h : optAdd k l r = .ok res)
+    (hl : optValid k.wildcard l = true) (hr : optValid k.wildcard r = true) :
+    ∀ x, x ∈ optExpand k.wildcard res ↔ x ∈ optExpand k.wildcard l ∨ x ∈ optExpand k.wildcard r := by
+  intro x
+  unfold optAdd at h
+  simp only [bind, Except.bind] at h
+  cases h1 : truthy k l with
+  | error e => simp [h1] at h
+  | ok b1 =>
+    cases h2 : truthy k r with
+    | error e => cases b1 <;> simp [h1, h2] at h
+    | ok b2 =>
+      cases b1 <;> cases b2
+      · simp [h1, h2, pure, Except.pure] at h; subst h
+        simp [truthy_false k l h1, truthy_false k r h2]
+      · simp [h1, h2, pure, Except.pure] at h; subst h
+        simp [truthy_false k l h1]
+      · simp [h1, h2, pure, Except.pure] at h; subst h
+        simp [truthy_false k r h2]
+      · obtain ⟨a, rfl, ha⟩ := truthy_true k l h1
+        obtain ⟨b, rfl, hb⟩ := truthy_true k r h2
+        simp only [h1, h2, if_true] at h
+        cases hadd : modesAdd k a b with
+        | error e => simp [hadd] at h
+        | ok m =>
+          simp [hadd, pure, Except.pure] at h; subst h
+          have va := valid_expand_subset k.wildcard a hl ha
+          have vb := valid_expand_subset k.wildcard b hr hb
+          simp only [optExpand]
+          by_cases hw : a.isWild = true ∨ b.isWild = true
+          · rw [modesAdd_wild k a b hw] at hadd
+            cases hadd
+            constructor
+            · intro hx
+              rcases hw with hw | hw
+              · cases a <;> simp [Modes.isWild] at hw; exact Or.inl hx
+              · cases b <;> simp [Modes.isWild] at hw; exact Or.inr hx
+            · rintro (hx | hx)
+              · exact va x hx
+              · exact vb x hx
+          · have na : ∃ al, a = .names al := by
+              rcases ha with rfl | h'
+              · exact absurd (Or.inl rfl) hw
+              · exact h'
+            have nb : ∃ bl, b = .names bl := by
+              rcases hb with rfl | h'
+              · exact absurd (Or.inr rfl) hw
+              · exact h'
+            obtain ⟨al, rfl⟩ := na
+            obtain ⟨bl, rfl⟩ := nb
+            obtain ⟨rr, h1', h2'⟩ := modesAdd_names k al bl
+            rw [h1'] at hadd; cases hadd
+            exact h2' x
+
+theorem optAdd_isSome (k : ModeKind) (l r res : Option Modes) (h : optAdd k l r = .ok res) (hl : l.isSome = true) :
+    res.isSome = true := by
+  unfold optAdd at h
+  simp only [bind, Except.bind] at h
+  cases h1 : truthy k l with
+  | error e => simp [h1] at h
+  | ok b1 =>
+    cases h2 : truthy k r with
+    | error e => cases b1 <;> simp [h1, h2] at h
+    | ok b2 =>
+      cases b1 <;> cases b2
+      · simp [h1, h2, pure, Except.pure] at h; subst h; exact hl
+      · simp [h1, h2, pure, Except.pure] at h; subst h
+        obtain ⟨b, rfl, _⟩ := truthy_true k r h2; rfl
+      · simp [h1, h2, pure, Except.pure] at h; subst h; exact hl
+      · obtain ⟨a, rfl, _⟩ := truthy_true k l h1
+        obtain ⟨b, rfl, _⟩ := truthy_true k r h2
+        simp only [h1, h2, if_true] at h
+        cases hadd : modesAdd k a b with
+        | error e => simp [hadd] at h
+        | ok m => simp [hadd, pure, Except.pure] at h; subst h; rfl
+
+/-! ### `ModelFeatures.create` -/
+
+theorem create_cases (A E : Option Modes) (T : List Transits) (P : List Peripherals) (L : Option Modes) (c : MF)
+    (h : MF.create A E T P L = .ok c) :
+    c = ⟨A, E, T, P, L⟩ ∨
+    c = ⟨some (A.getD (.names Gen.defaultAbsorption)), some (E.getD (.names Gen.defaultElimination)),
+          (if T.isEmpty then [⟨Gen.defaultTransitsCounts, .names Gen.defaultTransitsDepot⟩] else T),
+          (if P.isEmpty then [⟨Gen.defaultPeripheralsCounts, .names Gen.defaultPeripheralsModes⟩] else P),
+          some (L.getD (.names Gen.defaultLagtime))⟩ := by
+  unfold MF.create at h
+  simp only [bind, Except.bind] at h
+  split at h
+  · cases h
+  · rename_i pk _
+    cases pk
+    · simp only [pure, Except.pure, Bool.false_eq_true, ↓reduceIte, Except.ok.injEq] at h; exact Or.inl h.symm
+    · simp only [pure, Except.pure, ↓reduceIte, Except.ok.injEq] at h; exact Or.inr h.symm
+
+theorem create_sup (A E : Option Modes) (T : List Transits) (P : List Peripherals) (L : Option Modes) (c : MF)
+    (h : MF.create A E T P L = .ok c) : ∀ x, x ∈ (MF.mk A E T P L).atoms → x ∈ c.atoms := by
+  intro x hx
+  rcases create_cases A E T P L c h with rfl | rfl
+  · exact hx
+  · cases x with
+    | abs m =>
+      rw [mem_atoms_abs] at hx ⊢
+      cases A <;> simp_all [optExpand]
+    | elim m =>
+      rw [mem_atoms_elim] at hx ⊢
+      cases E <;> simp_all [optExpand]
+    | lag m =>
+      rw [mem_atoms_lag] at hx ⊢
+      cases L <;> simp_all [optExpand]
+    | trans c d =>
+      rw [mem_atoms_trans] at hx ⊢
+      cases T with
+      | nil => simp at hx
+      | cons t ts => simpa using hx
+    | peri c d =>
+      rw [mem_atoms_peri] at hx ⊢
+      cases P with
+      | nil => simp at hx
+      | cons t ts => simpa using hx
+
+theorem create_sub (A E : Option Modes) (T : List Transits) (P : List Peripherals) (L : Option Modes) (c : MF)
+    (h : MF.create A E T P L = .ok c) : ∀ x, x ∈ c.atoms → x ∈ (MF.mk A E T P L).atoms ∨ x ∈ defaultAtoms := by
+  intro x hx
+  rcases create_cases A E T P L c h with rfl | rfl
+  · exact Or.inl hx
+  · cases x with
+    | abs m =>
+      rw [mem_atoms_abs] at hx
+      cases A with
+      | some a => left; rw [mem_atoms_abs]; simpa [optExpand] using hx
+      | none => right; simp [optExpand, Modes.expand] at hx; simp [defaultAtoms, hx]
+    | elim m =>
+      rw [mem_atoms_elim] at hx
+      cases E with
+      | some a => left; rw [mem_atoms_elim]; simpa [optExpand] using hx
+      | none => right; simp [optExpand, Modes.expand] at hx; simp [defaultAtoms, hx]
+    | lag m =>
+      rw [mem_atoms_lag] at hx
+      cases L with
+      | some a => left; rw [mem_atoms_lag]; simpa [optExpand] using hx
+      | none => right; simp [optExpand, Modes.expand] at hx; simp [defaultAtoms, hx]
+    | trans c d =>
+      rw [mem_atoms_trans] at hx
+      cases T with
+      | nil =>
+        right
+        simp [Modes.expand] at hx
+        simp [defaultAtoms, hx]
+      | cons t ts => left; rw [mem_atoms_trans]; simpa using hx
+    | peri c d =>
+      rw [mem_atoms_peri] at hx
+      cases P with
+      | nil =>
+        right
+        simp [Modes.expand] at hx
+        simp [defaultAtoms, hx]
+      | cons t ts => left; rw [mem_atoms_peri]; simpa using hx
+
+theorem create_full (A E : Option Modes) (T : List Transits) (P : List Peripherals) (L : Option Modes) (c : MF)
+    (h : MF.create A E T P L = .ok c) (hA : A.isSome = true) (hE : E.isSome = true) (hL : L.isSome = true)
+    (hT : T ≠ []) (hP : P ≠ []) : c = ⟨A, E, T, P, L⟩ := by
+  rcases create_cases A E T P L c h with rfl | rfl
+  · rfl
+  · cases A <;> cases E <;> cases L <;> cases T <;> cases P <;> simp_all
+
+/-! ### `ModelFeatures.__add__` -/
+
+/-- the components handed to `create` by `__add__` expand to the union -/
+theorem add_components (a b : MF) (A E L : Option Modes) (T : List Transits) (P : List Peripherals)
+    (hT : addSubTransits a b true = .ok T) (hP : addSubPeripherals a b true = .ok P)
+    (hA : optAdd absorptionKind a.absorption b.absorption = .ok A)
+    (hE : optAdd eliminationKind a.elimination b.elimination = .ok E)
+    (hL : optAdd lagtimeKind a.lagtime b.lagtime = .ok L)
+    (hva : a.valid = true) (hvb : b.valid = true) :
+    ∀ x, x ∈ (MF.mk A E T P L).atoms ↔ x ∈ a.atoms ∨ x ∈ b.atoms := by
+  simp only [MF.valid, Bool.and_eq_true] at hva hvb
+  intro x
+  cases x with
+  | abs m =>
+    simp only [mem_atoms_abs]
+    exact optAdd_expand absorptionKind _ _ _ hA hva.1.1 hvb.1.1 m
+  | elim m =>
+    simp only [mem_atoms_elim]
+    exact optAdd_expand eliminationKind _ _ _ hE hva.1.2 hvb.1.2 m
+  | lag m =>
+    simp only [mem_atoms_lag]
+    exact optAdd_expand lagtimeKind _ _ _ hL hva.2 hvb.2 m
+  | trans c d =>
+    simp only [mem_atoms_trans]
+    have := addSubTransits_add a b T hT c d
+    simp only [List.mem_flatMap, Transits.atoms, List.mem_map] at this
+    rw [← this]
+    constructor
+    · rintro ⟨t, ht, hc, hd⟩; exact ⟨t, ht, c, hc, d, hd, rfl⟩
+    · rintro ⟨t, ht, c', hc, d', hd, he⟩; cases he; exact ⟨t, ht, hc, hd⟩
+  | peri c d =>
+    simp only [mem_atoms_peri]
+    have := addSubPeripherals_add a b P hP c d
+    simp only [List.mem_flatMap, Peripherals.atoms, List.mem_map] at this
+    rw [← this]
+    constructor
+    · rintro ⟨t, ht, hc, hd⟩; exact ⟨t, ht, c, hc, d, hd, rfl⟩
+    · rintro ⟨t, ht, c', hc, d', hd, he⟩; cases he; exact ⟨t, ht, hc, hd⟩
+
+theorem add_unfold (a b c : MF) (h : MF.add a b = .ok c) :
+    ∃ A E L T P, addSubTransits a b true = .ok T ∧ addSubPeripherals a b true = .ok P ∧
+      optAdd absorptionKind a.absorption b.absorption = .ok A ∧
+      optAdd eliminationKind a.elimination b.elimination = .ok E ∧
+      optAdd lagtimeKind a.lagtime b.lagtime = .ok L ∧ MF.create A E T P L = .ok c := by
+  unfold MF.add at h
+  simp only [bind, Except.bind] at h
+  cases hT : addSubTransits a b true with
+  | error e => simp [hT] at h
+  | ok T =>
+    cases hP : addSubPeripherals a b true with
+    | error e => simp [hT, hP] at h
+    | ok P =>
+      cases hA : optAdd absorptionKind a.absorption b.absorption with
+      | error e => simp [hT, hP, hA] at h
+      | ok A =>
+        cases hE : optAdd eliminationKind a.elimination b.elimination with
+        | error e => simp [hT, hP, hA, hE] at h
+        | ok E =>
+          cases hL : optAdd lagtimeKind a.lagtime b.lagtime with
+          | error e => simp [hT, hP, hA, hE, hL] at h
+          | ok L =>
+            simp only [hT, hP, hA, hE, hL] at h
+            exact ⟨A, E, L, T, P, rfl, rfl, rfl, rfl, rfl, h⟩
+
+
 end Pharmpy.C18
